@@ -626,10 +626,11 @@ pub fn buffer_sort_elements<T>(
 struct SortedDltMessage {
     m: crate::dlt::DltMessage,
     calculated_time_us: u64, // lc.start_time + m.timestamp_us
+    seq: u64,                // arrival number (m.index is not necessarily increasing/unique)
 }
 impl std::cmp::PartialEq for SortedDltMessage {
     fn eq(&self, other: &Self) -> bool {
-        self.calculated_time_us == other.calculated_time_us && self.m.index == other.m.index
+        self.calculated_time_us == other.calculated_time_us && self.seq == other.seq
     }
 }
 impl std::cmp::Ord for SortedDltMessage {
@@ -637,7 +638,7 @@ impl std::cmp::Ord for SortedDltMessage {
     fn cmp(&self, other: &Self) -> std::cmp::Ordering {
         // have to use the calculated time and not the own time
         if self.calculated_time_us == other.calculated_time_us {
-            self.m.index.cmp(&other.m.index) // keep the initial order on same timestamp
+            self.seq.cmp(&other.seq) // keep the initial order on same timestamp
         } else {
             self.calculated_time_us.cmp(&other.calculated_time_us)
         }
@@ -677,6 +678,7 @@ where
     // BinaryHeap seems faster. Use as min_heap
 
     let mut buffer = std::collections::binary_heap::BinaryHeap::with_capacity(1024 * 1024);
+    let mut next_seq: u64 = 0; // arrival number of the next message, see SortedDltMessage.seq
     // cache with lifecycle start times:
     // lets not use a vec which would work for most cases but for the lifecycle ids can be larger for longer runs (e.g. processing multiple files)
     let mut lc_map = std::collections::BTreeMap::<crate::lifecycle::LifecycleId, u64>::new();
@@ -851,7 +853,9 @@ where
         let sm = SortedDltMessage {
             m,
             calculated_time_us,
+            seq: next_seq,
         };
+        next_seq += 1;
         buffer.push(std::cmp::Reverse(sm));
 
         // remove all messages from buffer that have a time more than max_buffer_time_us earlier
